@@ -54,6 +54,12 @@ Theorem C01_convert_partial : forall ks ts kd td x,
 Proof. exact vm_convert_correct. Qed.
 Print Assumptions C01_convert_partial.
 
+(* x c y used as a condition (if, for, && ...), for every comparison operator and kind *)
+Theorem C01_cmp_partial : forall c k t x y, kind_ity k = Some t -> in_range t x -> in_range t y ->
+  vm_cmp c k x y = Some (Some (cmp c x y)).
+Proof. exact vm_cmp_correct. Qed.
+Print Assumptions C01_cmp_partial.
+
 (* the shift statement is false without the non-negativity of the count:
    Go panics, the VM yields 0 (known finding shl-negative-count) *)
 Theorem C01_shl_negcount_refuted :
